@@ -28,7 +28,7 @@ Qed.
 (* a tail that still contains a later "-v" is never a version suffix: '-' is not a digit *)
 Lemma suffix_not_yet c r ds : suffix (c :: r ++ 45 :: 118 :: ds) = None.
 Proof.
-  unfold suffix. destruct r as [|b r]; cbn [app].
+  unfold suffix. destruct r as [|b r]; cbn [Datatypes.app].
   - destruct (c =? 45); reflexivity.
   - change ((b :: r) ++ 45 :: 118 :: ds) with (b :: (r ++ 45 :: 118 :: ds)). cbv iota beta.
     rewrite all_digits_dash. destruct ((c =? 45) && (b =? 118) && negb (Nat.eqb (length (r ++ 45 :: 118 :: ds)) 0)); reflexivity.
@@ -53,8 +53,8 @@ Lemma parse_from_format r : forall pre ds,
   parse_from pre (r ++ 45 :: 118 :: ds) = Parsed (List.rev pre ++ r) (int_of ds).
 Proof.
   induction r as [|c r IH]; intros pre ds Hr Hl Hd; rewrite parse_from_eq.
-  - cbn [app]. rewrite suffix_version by auto. rewrite app_nil_r. reflexivity.
-  - cbn [app]. cbn [forallb] in Hr. apply andb_true_iff in Hr as [Hc Hr].
+  - change ([] ++ 45 :: 118 :: ds) with (45 :: 118 :: ds). rewrite suffix_version by auto. rewrite app_nil_r. reflexivity.
+  - change ((c :: r) ++ 45 :: 118 :: ds) with (c :: (r ++ 45 :: 118 :: ds)). cbn [forallb] in Hr. apply andb_true_iff in Hr as [Hc Hr].
     rewrite suffix_not_yet, Hc, IH by auto. cbn [List.rev]. rewrite <- app_assoc. reflexivity.
 Qed.
 
@@ -62,7 +62,7 @@ Qed.
 Theorem parse_format name v : name_ok name -> parse_env_id (get_env_id name v) = Parsed name v.
 Proof.
   intros [Hne Hok]. destruct name as [|c r]; [congruence|]. cbn [forallb] in Hok.
-  apply andb_true_iff in Hok as [Hc Hr]. unfold get_env_id, parse_env_id. cbn [app]. rewrite Hc.
+  apply andb_true_iff in Hok as [Hc Hr]. unfold get_env_id, parse_env_id. cbn [Datatypes.app]. rewrite Hc.
   rewrite parse_from_format; auto using str_of_nonempty, digits_all_digits.
   - rewrite int_str. reflexivity.
   - unfold str_of. apply digits_all_digits.
@@ -88,7 +88,7 @@ Proof.
   - cbn in H. discriminate.
   - destruct (suffix (c :: rest)) as [[ds|]|] eqn:S.
     + inversion H; subst; clear H. apply suffix_some in S as (E & Hl & Hd).
-      exists [], ds. rewrite app_nil_r. cbn [app]. repeat split; auto.
+      exists [], ds. rewrite app_nil_r. cbn [Datatypes.app]. repeat split; auto.
     + discriminate.
     + destruct (name_char c) eqn:Hc; [|discriminate].
       apply IH in H as (r & ds & -> & -> & Hr & Hl & Hd & ->); [|cbn; rewrite Hc; auto].
@@ -114,7 +114,7 @@ Proof.
     cbn [orb] in H. apply existsb_exists in H as (x & Hx & Bx). unfold all_digits in Hd. rewrite forallb_forall in Hd.
     specialize (Hd x Hx). unfold name_char, is_word in Bx. rewrite Hd in Bx. discriminate.
   - unfold suffix in S. destruct rest as [|b ds]; [|destruct (_ && _); discriminate]. discriminate.
-  - cbn [existsb] in H. destruct (name_char c) eqn:Hc; auto. apply IH. cbn in H. auto.
+  - cbn [existsb] in H. destruct (name_char c) eqn:Hc; auto; try (apply IH; cbn in H; auto).
 Qed.
 
 Theorem parse_rejects_bad_char s : existsb (fun c => negb (name_char c)) s = true -> parse_env_id s = Malformed.
@@ -217,8 +217,8 @@ Proof. induction base as [|[k0 v0] r IH]; cbn; auto. destruct (str_eqb k0 k'); a
 
 Lemma existsb_kw_get base k : existsb (fun p => str_eqb (fst p) k) base = true <-> kw_get base k <> None.
 Proof.
-  induction base as [|[k0 v0] r IH]; cbn; [split; congruence|].
-  destruct (str_eqb k0 k); cbn; [split; congruence|auto].
+  induction base as [|[k0 v0] r IH]; cbn [existsb kw_get fst]; [split; congruence|].
+  destruct (str_eqb k0 k); cbn [orb]; [split; congruence|auto].
 Qed.
 
 Theorem override_spec extra : forall base k,
